@@ -35,6 +35,8 @@ pub fn gen(o: &Opts, sink: &mut dyn FnMut(Vec<i64>, String)) {
         let cuts = random_cuts(&mut rng, total);
         let mut sigs = vec![];
         for i in 0..=cuts.len() { if rng.chance(1, 3) { sigs.push(i as i64); } }
+        // one case in eight: a burst of 17..40 signals after one of the writes (queue overrun mid-stream)
+        if rng.chance(1, 8) && !cuts.is_empty() { let at = rng.below(cuts.len() as u64) as i64; for _ in 0..(17 + rng.below(24)) { sigs.push(at); } }
         let endmode = rng.below(3) as i64;
         sink(script_case(false, &frames, None, &cuts, &sigs, endmode), String::new());
     }
